@@ -77,8 +77,9 @@ Theorem C05_compose_skim_refuted :
        | Ok (s1, out) => handle CP s1 (MSwapIn sender rest (snd h) out minOut)
        end).
 Proof.
-  intro H. specialize (H ex_state_skim (Trader 0) (1, 2) [(2, 3)] 1 10000 1 ltac:(discriminate) ltac:(reflexivity)).
-  apply (f_equal res_err) in H. vm_compute in H. discriminate H.
+  intro H. destruct skim_witness as (A & B).
+  pose proof (H ex_state_skim (Trader 0) (1, 2) [(2, 3)] 1 10000 1 ltac:(discriminate) ltac:(reflexivity)) as E.
+  apply (f_equal res_err) in E. cbn [snd] in E. rewrite A, B in E. discriminate E.
 Qed.
 Print Assumptions C05_compose_skim_refuted.
 
@@ -157,19 +158,10 @@ Print Assumptions C05_estimate_pure.
 (* REFUTED: the full statement fails for a sender on the reduced-fee whitelist (finding C05-F2; replayed on the real
    code by corpus/C05/f2_whitelisted_estimate.json): three hops, taker fees 0.15 % / 1 % / 0 - the estimate says 2951,
    the whitelisted execution delivers 2985 *)
-Definition wl_route : list (Z * Z) := [(1, 2); (2, 3); (3, 4)].
-Lemma nodup_wl_route : NoDup (map fst wl_route).
-Proof. repeat constructor; cbn; intuition discriminate. Qed.
-Lemma res_val_ok : forall (r : result (state CP * Z)) v, res_val r = v -> v <> -1 -> exists s', r = Ok (s', v).
-Proof. intros [[s' x]|e] v H N; simpl in H; [exists s'; congruence|congruence]. Qed.
-
 Theorem C05_estimate_full_refuted : ~ C05_estimate_full.
 Proof.
-  intro H.
-  destruct (res_val_ok (route_exact_in CP ex_state (Trader 7) wl_route 1 10000 1) 2985) as [s' E];
-    [vm_compute; reflexivity|discriminate|].
-  specialize (H CP CP_laws wl_route ex_state (Trader 7) 1 10000 1 s' 2985 nodup_wl_route E).
-  apply (f_equal snd) in H. vm_compute in H. discriminate H.
+  intro H. destruct whitelisted_witness as (s' & E & N).
+  rewrite (H CP CP_laws wl_route ex_state (Trader 7) 1 10000 1 s' 2985 nodup_wl_route E) in N. discriminate N.
 Qed.
 Print Assumptions C05_estimate_full_refuted.
 
@@ -180,11 +172,8 @@ Theorem C05_estimate_repeated_pool_refuted :
        route_exact_in CP s sender route dIn amt minOut = Ok (s', out) ->
        estimate_in CP s route dIn amt = (s, Ok out)).
 Proof.
-  intro H.
-  destruct (res_val_ok (route_exact_in CP ex_state (Trader 0) [(1, 2); (1, 1)] 1 100000 1) 99702) as [s' E];
-    [vm_compute; reflexivity|discriminate|].
-  specialize (H [(1, 2); (1, 1)] ex_state (Trader 0) 1 100000 1 s' 99702 (or_introl eq_refl) E).
-  apply (f_equal snd) in H. vm_compute in H. discriminate H.
+  intro H. destruct repeated_pool_witness as (s' & E & N).
+  rewrite (H [(1, 2); (1, 1)] ex_state (Trader 0) 1 100000 1 s' 99702 (or_introl eq_refl) E) in N. discriminate N.
 Qed.
 Print Assumptions C05_estimate_repeated_pool_refuted.
 
@@ -245,7 +234,4 @@ Example C05_nonvacuous :
   res_val (split_exact_in CP ex_state (Trader 0) [([(1, 2); (2, 3)], 10000); ([(4, 3)], 20000)] 1 37426) = 37426 /\
   res_val (route_exact_in CP ex_state (Trader 0) [(1, 2); (2, 3)] 1 10000 1) = 11824 /\
   res_val (split_exact_out CP ex_state (Trader 0) [([(1, 1); (2, 2)], 5000); ([(4, 1)], 7000)] 3 9681) = 9681.
-Proof.
-  split; [exact nodup_wl_route|]. split; [left; reflexivity|].
-  repeat split; vm_compute; reflexivity.
-Qed.
+Proof. exact nonvacuous_witness. Qed.
